@@ -21,7 +21,9 @@ RULE = ("each case = one gradient form (f:>literal, f:>variable, variable∇f, :
         ".jacobian(g;p), loss:>[w b ...], [w b]∂g) x loss function x parameter kind (int / real scalar, float64 vector / matrix, "
         "integer vector) on the stated backend; per case the failing evaluation index k is enumerated over ALL ticks of the "
         "fault-free run x 3 failure kinds, plus an unknown-name variant; evaluations = faulted + fault-free runs judged; a case is "
-        "non-trivial when it has >= 2 ticks; distinct = (form, loss, parameter kind, backend, N)")
+        "non-trivial when it has >= 2 ticks; distinct = (form, loss, parameter kind, backend, N).  Then a history: the first "
+        "result kept in a global, the parameter moved (literal or the documented descent step), the operator evaluated again "
+        "fault-free and failing; 1 case in 3 evaluates the operator inside a function")
 EXHAUSTIVE_NOTE = "the fault position k is enumerated exhaustively (1..N) for every failure kind within each generated case; cases are sampled"
 ASSUMPTIONS = [
     "only state reachable through the public API (all global variables, results of re-evaluation) is compared",
@@ -34,7 +36,8 @@ REAL_STUB = {
     "stub": ["the differentiated function's failure: an identity tick callable that raises / returns a vector at its k-th invocation"],
 }
 EXPECTED_PROBES = ["probe_fault_in_first_probe", "probe_fault_in_later_probe", "probe_symbol_point_rebinding", "probe_multi_param", "probe_jacobian",
-                   "probe_literal_point", "probe_nonscalar_fault", "probe_unknown_name"]
+                   "probe_literal_point", "probe_nonscalar_fault", "probe_unknown_name", "probe_earlier_result_kept_in_a_variable",
+                   "probe_parameter_after_a_descent_step", "probe_operator_inside_a_function", "probe_reassign_then_repeat"]
 WALL_CAP = {"quick": 400, "thorough": 3600}
 
 
